@@ -107,6 +107,13 @@ def run_cfg(jitlib, spec, backend, prog, cfg, tmpdir, max_steps):
     finally:
         jitcore.JitCore.jitted_block_max_size = saved
     cache = jitter.jit.offset_to_jitted_func
+    added = [0]
+    orig_add = jitter.jit.add_block
+
+    def counting_add(block):
+        added[0] += 1
+        return orig_add(block)
+    jitter.jit.add_block = counting_add
     trace = None
     if cfg.get("toggle"):
         jitter.set_trace_log(True, False, False)
@@ -126,7 +133,7 @@ def run_cfg(jitlib, spec, backend, prog, cfg, tmpdir, max_steps):
         trace = parse_log(path)
     else:
         out = rerun(jitlib, spec, backend, prog, jitter, max_steps, cfg)
-    return out, trace, len(cache)
+    return out, trace, max(0, added[0] - len(cache))
 
 
 def rerun(jitlib, spec, backend, prog, jitter, max_steps, cfg):
@@ -206,8 +213,9 @@ def run_shard(params, rec):
             rec.distinct("%s|%s|%s|%s" % (spec.mname, backend, i, sorted(cfg.items())))
             if cfg.get("cache"):
                 rec.count("bounded_cache_runs")
-                if len(set(ref_trace)) > cfg["cache"] * min(cfg["maxline"], 3):
+                if cache_len > 0:      # blocks translated minus blocks still cached = evictions
                     rec.count("bounded_cache_runs_with_eviction_pressure")
+                    rec.count("evictions_observed", cache_len)
             d = jitlib.diff_outcomes(ref, out, spec, ignore_regs=(spec.pc_name,))
             rec.count("states_compared")
             cls = "maxline=%s maxexec=%s%s%s%s" % (
@@ -247,5 +255,5 @@ def floors(tier, counters, evaluations):
     if counters.get("with_taken_loop", 0) < 0.3 * max(1, evaluations - counters.get("discarded_budget", 0)):
         miss.append("fewer than 30% of programs take their loop")
     if counters.get("bounded_cache_runs_with_eviction_pressure", 0) < 0.3 * max(1, counters.get("bounded_cache_runs", 0)):
-        miss.append("bounded-cache runs rarely exceed the cache size")
+        miss.append("evictions observed in fewer than 30% of bounded-cache runs")
     return miss
